@@ -206,11 +206,11 @@ def analyze_stmt(case, sm, ov=None):
         krs = None   # what the database would have stored is not observable for a rejected insert
     if matched is not None and krs is not None and sm.get("expect") != "reject-db":
         res["icase"] = ("{| i_kind := %d; i_only_care := %s; i_ncols := %d; i_pk := %s; i_cols := %s; i_sets := %s;\n i_tb := %s;\n i_m := %s; i_krs := %s; "
-                        "i_listed := %s; i_last_id := (%d)%%Z; i_step := (%d)%%Z; i_ok := %s;\n i_before := %s;\n i_after := %s;\n i_ta := %s |}") % (
+                        "i_listed := %s; i_last_id := (%d)%%Z; i_step := (%d)%%Z; i_auto := %s; i_ok := %s;\n i_before := %s;\n i_after := %s;\n i_ta := %s |}") % (
             kindn, coq_bool(meta["only_care"]), len(names), coq_list(map(str, pk)), coq_list(map(str, sm["cols"] or [])), coq_list(sets),
             U.coq_tbl([(list(k), r) for k, r in U.keyed(d0, pk)]),
             coq_list([U.coq_vals(list(k)) for k in (matched if sm["kind"] != "insert" else [])]), U.coq_tbl(krs),
-            listed, st.get("last_id", 0), sm.get("step") or 1, coq_bool(ok), U.coq_tbl(obs_b), U.coq_tbl(obs_a),
+            listed, st.get("last_id", 0), sm.get("step") or 1, coq_bool(bool(meta.get("auto_inc"))), coq_bool(ok), U.coq_tbl(obs_b), U.coq_tbl(obs_a),
             U.coq_tbl([(list(k), r) for k, r in U.keyed(d1, pk)]))
     # ---- argument selection: the first locking SELECT the proxy issued for this statement
     if sm["kind"] in ("update", "delete") and sm.get("roots"):
